@@ -140,7 +140,8 @@ CTOR_TEMPLATES = {
     'SO3': 'arg=R3|L:R3|SAME|LO:SO3 / ',
     'SE3': 'x=T3|L:T3|v3|tN|SAME|LO:SE3 / x=sc, y=sc, z=sc / ',
     'Quaternion': 's=v4|L:v4|SAME|LO:Quaternion / s=sc, v=v3 / ',
-    'UnitQuaternion': 's=q|L:q|R3|T3|qN|obj:SO3|obj:SE3|SAME|LO:UnitQuaternion|LO:SO3, ?norm=bool / s=sc, v=v3|sv3 / ',
+    # unit quaternions double-cover rotations: values of both signs matter, so 4-vectors dominate
+    'UnitQuaternion': 's=q|q|q|q|L:q|L:q|R3|T3|qN|obj:SO3|obj:SE3|SAME|LO:UnitQuaternion|LO:SO3, ?norm=bool / s=sc, v=v3|sv3 / ',
     'Twist2': 'arg=v3|L:v3|se2|SAME|obj:SE2|LO:Twist2 / arg=v2, w=sc / ',
     'Twist3': 'arg=v6|L:v6|se3|SAME|obj:SE3|LO:Twist3 / arg=v3, w=v3|uv3 / ',
     'Plucker': 'v=v6|L:v6|SAME|LO:Plucker / v=v3, w=v3|uv3',
